@@ -8,6 +8,7 @@ package main
 
 import (
 	"bytes"
+	"time"
 	"encoding/hex"
 	"fmt"
 	"math/big"
@@ -43,6 +44,18 @@ func encChecksPoint(g *groups.G, v kyber.Point) []string {
 	}
 	if b3, _ := w.MarshalBinary(); !bytes.Equal(b, b3) {
 		f = append(f, "re-encoding differs")
+	}
+	// decoding into a destination that already holds another value must not depend on that value
+	cp := groupCaps(g)
+	dirty := []kyber.Point{G.Point().Null(), cp.gen(), G.Point().Add(cp.gen(), cp.gen())}
+	for i, d := range dirty {
+		if err := d.UnmarshalBinary(b); err != nil {
+			f = append(f, fmt.Sprintf("UnmarshalBinary into a reused destination (%d) fails: %v", i, err))
+			continue
+		}
+		if b4, _ := d.MarshalBinary(); !d.Equal(v) || !bytes.Equal(b, b4) {
+			f = append(f, fmt.Sprintf("UnmarshalBinary into a reused destination (%d) gives a different value", i))
+		}
 	}
 	var buf bytes.Buffer
 	n, err := v.MarshalTo(&buf)
@@ -147,6 +160,7 @@ func runC03(c *kc.Ctx) {
 				c.Nontrivial("s|" + g.Name + "|" + v.String())
 			}
 			for i := 0; i < nProg; i++ {
+				dgen := c.Watch(120*time.Second, g.Name, g.Name+": generating and running a program", map[string]string{"group": g.Name, "seed": fmt.Sprint(c.Seed), "program_index": fmt.Sprint(i)}, "proof")
 				p := genProg(rng.Fork(fmt.Sprint(i)), f.q, plen, src, cp.base, true)
 				st := &progState{pts: map[string]kyber.Point{}, scs: map[string]kyber.Scalar{}}
 				ok := true
@@ -156,6 +170,7 @@ func runC03(c *kc.Ctx) {
 						break
 					}
 				}
+				dgen()
 				if !ok {
 					continue // panics in arithmetic belong to C01/C05
 				}
